@@ -84,11 +84,11 @@ func init() {
 		},
 	})
 	def("C04", &propertyDef{
-		Decides:    "merge coverage (A4): every attribute below services/networks/volumes/secrets/configs that the schema lets be spelled as list-or-mapping or string-or-list has a converting merger; every uniqueItems list is de-duplicated after the append (unicity indexer, mapping-producing or replacing merger); command, entrypoint and healthcheck.test are bound to the replacing merger; each indexer has an arm for every item kind, and builds its key with verbs that print every admissible YAML type of a field alike (FMTVERB). The two tables are exclusive and have no dead rows (A1, A2). Stage order Apply(!reset) < Merge < EnforceUnicity < validate < Canonical < EnforceUnicity holds on every path and each stage's error is propagated (PIPE); every YAML document of a file runs through the pipeline (MULTIDOC).",
+		Decides:    "merge coverage (A4): every attribute below services/networks/volumes/secrets/configs that the schema lets be spelled as list-or-mapping or string-or-list has a converting merger; every uniqueItems list is de-duplicated after the append (unicity indexer, mapping-producing or replacing merger), the de-duplication keeping, per key, the position of its first occurrence in the output list (position-map idiom, proved by PANIC-IDX over package override); command, entrypoint and healthcheck.test are bound to the replacing merger; each indexer has an arm for every item kind, and builds its key with verbs that print every admissible YAML type of a field alike (FMTVERB). The two tables are exclusive and have no dead rows (A1, A2). Stage order Apply(!reset) < Merge < EnforceUnicity < validate < Canonical < EnforceUnicity holds on every path and each stage's error is propagated (PIPE); every YAML document of a file runs through the pipeline (MULTIDOC).",
 		NotDecided: "the merged values themselves; `!reset` inside sequences; that what a later file does not mention is preserved.",
-		Rules:      []string{"A4", "FMTVERB", "A1", "A2", "PIPE", "MULTIDOC", "TREEPATH", "TREE"},
+		Rules:      []string{"A4", "PANIC-IDX", "FMTVERB", "A1", "A2", "PIPE", "MULTIDOC", "TREEPATH", "TREE"},
 		Run: func(c *rules.Ctx) []report.Obligation {
-			return cat(c.A4("A4"), c.FMTVERB("FMTVERB", "override"), c.TREEPATH("TREEPATH"), c.TREE("TREE", "LOAD"), c.A1("A1", rules.TMerge, rules.TUnique), c.A2("A2", rules.TMerge, rules.TUnique),
+			return cat(c.A4("A4"), rules.Only(c.PanicIDX("PANIC-IDX", "LOAD"), "override."), c.FMTVERB("FMTVERB", "override"), c.TREEPATH("TREEPATH"), c.TREE("TREE", "LOAD"), c.A1("A1", rules.TMerge, rules.TUnique), c.A2("A2", rules.TMerge, rules.TUnique),
 				c.PIPE("PIPE", stageIn("Apply", "override.Merge", "override.EnforceUnicity", "schema.Validate", "transform.Canonical", "loader.OmitEmpty")), c.MULTIDOC("MULTIDOC"))
 		},
 	})
@@ -161,24 +161,24 @@ func init() {
 		},
 	})
 	def("C13", &propertyDef{
-		Decides:    "the spawn in visit is gated by ready then enter; in the spawned closure the visitor precedes done, done precedes the hand-off send, and every exit sends (TRV-1/2); ready returns true only after the loop over all dependencies and the direction tables are mirror images (TRV-4); vertexVisited is stored only in done, enter is a test-and-set (TRV-5); status and results are accessed only under the mutex, in the constructor or after the join (R3); walk returns eg.Wait() after any spawn, channel capacity is len-derived with one send per closure (FAN); the cycle error returns before walk (TRV-7); the errgroup limit is maxConcurrency + the coordinator (TRV-10); the coordinator's counter starts at the number of vertices, drops by one per received vertex and stops the coordinator at zero (TRV-8); a skipped vertex is decided from state that the walk does not change (TRV-11); every mutex or semaphore slot taken is given back on every path to an exit (PAIR); fields of graph/vertex/Options are not written in the concurrent phase (RONLY); the traversal does not write through the *Project argument (IMM-I1).",
+		Decides:    "the spawn in visit is gated by ready then enter; in the spawned closure the visitor precedes done, done precedes the hand-off send, and every exit sends (TRV-1/2); ready returns true only after the loop over all dependencies and the direction tables are mirror images (TRV-4); vertexVisited is stored only in done, enter is a test-and-set (TRV-5); status and results are accessed only under the mutex, in the constructor or after the join (R3); walk returns eg.Wait() after any spawn, channel capacity is len-derived with one send per closure (FAN); the cycle error returns before walk (TRV-7) and the cycle search compares every child with the current path before anything can prune it, recursing only when it is not on the path (CYC); the errgroup limit is maxConcurrency + the coordinator (TRV-10); the coordinator's counter starts at the number of vertices, drops by one per received vertex and stops the coordinator at zero (TRV-8); a skipped vertex is decided from state that the walk does not change (TRV-11); every mutex or semaphore slot taken is given back on every path to an exit (PAIR); fields of graph/vertex/Options are not written in the concurrent phase (RONLY); the traversal does not write through the *Project argument (IMM-I1).",
 		NotDecided: "liveness under every completion order, exactly-once, the interleaving space itself: the domain of model checking / schedule exploration.",
-		Rules:      []string{"TRV", "R3", "FAN", "RONLY", "IMM", "PAIR"},
+		Rules:      []string{"TRV", "R3", "FAN", "RONLY", "IMM", "PAIR", "CYC"},
 		Run: func(c *rules.Ctx) []report.Obligation {
-			return cat(c.TRV("TRV"), c.R3("R3", "graph"), c.FanOut("FAN", "graph"),
+			return cat(rules.Only(c.CYC("CYC"), "depends_on ::"), c.TRV("TRV"), c.R3("R3", "graph"), c.FanOut("FAN", "graph"),
 				c.ROnly("RONLY", "graph", []string{"graph.walk"}, map[string]bool{"traversal.status": true, "traversal.results": true}), c.TRVSkip("TRV-11"), c.TRVCount("TRV-8"), c.PAIR("PAIR", "graph"), c.IMMGraph("IMM"))
 		},
 	})
 	def("C14", &propertyDef{
 		Decides:    "for every exported method of types.Project (found from the method set) no store, map update, delete, append, copy or writing callee is applied to memory owned by the receiver (I1), and no value owned by the receiver is stored into memory that reaches a returned *Project (I2); values handed to caller-supplied callbacks are copies. The analysis runs through the generated deep-copy code, so a field copied shallowly there makes every derivation fail I2.",
 		NotDecided: "that the result carries every field not affected by the operation beyond copy completeness; opaque extension payloads (exempt by the statement).",
-		Rules:      []string{"IMM-I1", "IMM-I2"},
+		Rules:      []string{"IMM-I1", "IMM-I2", "DC"},
 		Run: func(c *rules.Ctx) []report.Obligation {
-			return c.IMMDerive("IMM")
+			return cat(c.IMMDerive("IMM"), c.DC("DC"))
 		},
 	})
 	def("C15", &propertyDef{
-		Decides:    "WithProfiles ranges over AllServices() and stores every service on exactly one edge of HasProfile into the map assigned to Services resp. DisabledServices (PART-1); WithServicesDisabled records the service in DisabledServices before deleting it from Services, under the presence test, and deletes DependsOn[name] in all remaining services (PART-2, DEP); WithSelectedServices keeps or disables every service (PART-3); no map range in the selection operations has an order-sensitive effect (ORD).",
+		Decides:    "WithProfiles ranges over AllServices() and stores every service on exactly one edge of HasProfile into the map assigned to Services resp. DisabledServices (PART-1); WithServicesDisabled records the service in DisabledServices before deleting it from Services, under the presence test, and deletes DependsOn[name] in all remaining services (PART-2, DEP); WithSelectedServices keeps or disables every service (PART-3); WithServicesEnabled re-partitions through WithProfiles on every path where a name was given (PART-4); no map range in the selection operations has an order-sensitive effect (ORD).",
 		NotDecided: "the profile predicate, the dependency closure on arbitrary graphs, pruning exactly the referenced resources: set-valued semantics.",
 		Rules:      []string{"PART", "ORD"},
 		Run: func(c *rules.Ctx) []report.Obligation {
@@ -195,7 +195,7 @@ func init() {
 		},
 	})
 	def("C17", &propertyDef{
-		Decides:    "name precedence in withNamePrecedenceLoad (explicit, COMPOSE_PROJECT_NAME, directory) with the right imperative flags (NAME-1); projectName validates an imperative name without consulting files, exports the name on every exit, interpolates (unless SkipInterpolation) and normalises the file name, uses it only when non-empty, last file wins (NAME-2); load rejects an empty name, WithName rejects non-normal names (NAME-3); WithOsEnv and Mapping.Merge write only absent keys, WithEnv and later .env files overwrite, the .env lookup consults the current environment first (ENV).",
+		Decides:    "name precedence in withNamePrecedenceLoad (explicit, COMPOSE_PROJECT_NAME, directory) with the right imperative flags (NAME-1); projectName validates an imperative name without consulting files, exports the name on every exit, interpolates (unless SkipInterpolation) and normalises the file name, uses it only when non-empty, last file wins (NAME-2); load rejects an empty name, WithName rejects non-normal names (NAME-3); NormalizeProjectName trims the leading `_` / `-` from the already filtered text (NAME-5); WithOsEnv and Mapping.Merge write only absent keys, WithEnv and later .env files overwrite, the .env lookup consults the current environment first (ENV).",
 		NotDecided: "the regex itself, directory-name normalisation results, the option call order chosen by the caller.",
 		Rules:      []string{"NAME", "ENV"},
 		Run: func(c *rules.Ctx) []report.Obligation {
@@ -221,11 +221,11 @@ func init() {
 		},
 	})
 	def("C20", &propertyDef{
-		Decides:    "each of the four secret/config marshallers blanks Content on the edge where it must not be rendered and reads the rendered copy afterwards (SEC-1); they exist with value receivers (SEC-2); marshallContent is written in one function, under the explicit option, on a deep copy (SEC-3); the decoder hook moves the carrier key to Content and deletes it (SEC-4); the renderers keep no package-level state (no pooled buffer a returned rendering could alias) (GLOB); environment values looked up for secrets/configs are stored only under the carrier key resp. `content` (SEC-5); the project renderers do not write through the project (IMM-I1).",
+		Decides:    "each of the four secret/config marshallers blanks Content on the edge where it must not be rendered and reads the rendered copy afterwards (SEC-1); they exist with value receivers (SEC-2); marshallContent is written in one function, under the explicit option, on a deep copy (SEC-3); the decoder hook moves the carrier key to Content and deletes it (SEC-4); the renderers keep no package-level state (no pooled buffer a returned rendering could alias) (GLOB); the loops that resolve environment-sourced secrets and configs carry nothing from one resource to the next (ORD on loader.resolve*); environment values looked up for secrets/configs are stored only under the carrier key resp. `content` (SEC-5); the project renderers do not write through the project (IMM-I1).",
 		NotDecided: "non-occurrence of the value in the bytes (a second struct field, a user extension literally named x-#value, a value present elsewhere in the model); exact reproduction with WithSecretContent.",
-		Rules:      []string{"SEC", "IMM-I1", "GLOB"},
+		Rules:      []string{"SEC", "IMM-I1", "GLOB", "ORD"},
 		Run: func(c *rules.Ctx) []report.Obligation {
-			return cat(c.SEC("SEC"), c.IMMRender("IMM"), rules.Only(c.GLOB("GLOB"), "types.", "inventory"))
+			return cat(c.SEC("SEC"), c.IMMRender("IMM"), rules.Only(c.GLOB("GLOB"), "types.", "inventory"), rules.Only(c.ORD("ORD", "LOAD"), "loader.resolve"))
 		},
 	})
 }
